@@ -88,6 +88,7 @@ type T struct {
 	seen       map[uint64]struct{}
 	res        workerResult
 	lastFlush  time.Time
+	lastTick   time.Time
 	stopped    bool
 	mu         sync.Mutex
 	replayHit  bool
@@ -204,8 +205,9 @@ func (t *T) Case(key string, fn func() *Outcome) {
 			}
 		}
 	}
-	if t.res.Evaluations%256 == 0 {
+	if t.res.Evaluations%64 == 0 || time.Since(t.lastTick) > 200*time.Millisecond {
 		now := time.Now()
+		t.lastTick = now
 		if now.After(t.deadline) {
 			t.stopped = true
 			t.res.TimedOut = true
@@ -342,6 +344,7 @@ func newT(spec *Spec, tier string, shard, n int) *T {
 	t.res.KnownEx = map[string]string{}
 	t.deadline = time.Now().Add(deadlineFor(spec, tier))
 	t.lastFlush = time.Now()
+	t.lastTick = time.Now()
 	return t
 }
 
